@@ -238,7 +238,7 @@ def model_vo_targets():
     return sorted(set('%s/%s.vo' % m for m in mods))
 
 
-def run_lines(exe, lines, timeout=900, shards=1):
+def run_lines(exe, lines, timeout=300, shards=1):
     """Feed case lines to an executable, return output lines (one per case)."""
     if not lines:
         return []
@@ -253,14 +253,24 @@ def run_lines(exe, lines, timeout=900, shards=1):
         return res
     env = dict(ENV)
     pre = 'ulimit -s unlimited 2>/dev/null; '
-    p = subprocess.run(['bash', '-c', pre + 'exec ' + exe], input='\n'.join(lines) + '\n', env=env,
-                       stdout=subprocess.PIPE, stderr=subprocess.PIPE, text=True, timeout=timeout)
-    out = p.stdout.split('\n')
+    p = subprocess.Popen(['bash', '-c', pre + 'exec ' + exe], env=env, stdin=subprocess.PIPE,
+                         stdout=subprocess.PIPE, stderr=subprocess.PIPE, text=True)
+    timed_out = False
+    try:
+        so, _ = p.communicate('\n'.join(lines) + '\n', timeout=timeout)
+    except subprocess.TimeoutExpired:
+        timed_out = True
+        p.kill()
+        so, _ = p.communicate()
+    out = (so or '').split('\n')
     if out and out[-1] == '':
         out.pop()
+    if len(out) > len(lines):
+        out = out[:len(lines)]
     if len(out) != len(lines):
-        # the process died: attribute the crash to the first unanswered case
-        out = out + ['crash(rc=%s)' % p.returncode] + ['not-run'] * (len(lines) - len(out) - 1)
+        # the process died or hung: attribute it to the first unanswered case
+        first = 'timeout' if timed_out else 'crash(rc=%s)' % p.returncode
+        out = out + [first] + ['not-run'] * (len(lines) - len(out) - 1)
     return out
 
 
